@@ -193,6 +193,9 @@ func main() {
 		if err == nil {
 			err = corr.ErrorsOwn(res, *seed)
 		}
+		if err == nil {
+			err = corr.CloseDuringBurst(res, *seed)
+		}
 	case "C03":
 		res.Rule = "fault kinds {FIN, RST, blackhole} x positions {before, inside header, mid-payload, before last byte, after} x directions x frame of a workload (calls, a notification, a retry-tagged call) x calls issued right after the strike / in the reconnect window / after recovery (x second fault, thorough); oracle: a call is lost iff it has not returned although a later probe round-tripped or the client was closed; the client endpoint's hook trace is replayed through Jrpc.Corr; distinct = (fault, position, direction, frame, timing)"
 		err = corr.FaultGrid(d, res, *seed, thorough, "C03")
@@ -204,6 +207,13 @@ func main() {
 		}
 		if err == nil {
 			err = corr.SilentStall(d, res, *seed)
+		}
+		if err == nil {
+			// the redial is answered by something that is not the service (HTTP 404 / 502): still "between connections"
+			err = c05.OutageHTTP(res, *seed, 404)
+		}
+		if err == nil {
+			err = c05.OutageHTTP(res, *seed, 502)
 		}
 		if err == nil {
 			err = corr.StaleDelete(d, res, *seed)
